@@ -263,11 +263,45 @@ def run(res):
         sp_stats["agree"] += 1
         sp_stats["nals"] += len(flat(om))
         sp_stats["batches"] += om.count("|") + 1
+    # ---- the same through the piped-stdin mode: the input delivered in arbitrary fragments (each at most the
+    # chunk size, so that one fragment is one read() result), against read_stdin of Splitter.v
+    sps = []
+    for k in range(200 if res.tier == "quick" else 3000):
+        b, cs0, _ = sp[r.randrange(0, min(len(sp), 400))]
+        cs = r.choice([4, 5, 8, 16, 33, 100])
+        b = b[:600]
+        frs, pos = [], 0
+        while pos < len(b):
+            ln = r.randint(1, cs)
+            frs.append(b[pos : pos + ln])
+            pos += ln
+        sps.append((b, cs, frs))
+    enc = lambda frs: ",".join(f.hex() for f in frs) or "-"
+    impl2 = C.run_sharded(C.dvh, ["hsplits %d %s" % (cs, enc(frs)) for b, cs, frs in sps])
+    mod2 = C.run_sharded(C.model, ["splits %d %s" % (cs, enc(frs)) for b, cs, frs in sps])
+    whole2 = C.run_sharded(C.model, ["split %s" % (b.hex() or "-") for b, cs, frs in sps])
+    sp_stats["stdin_cases"] = len(sps)
+    sp_stats["stdin_agree"] = 0
+    for (b, cs, frs), oi, om, ow in zip(sps, impl2, mod2, whole2):
+        rp = {"op": "hsplits", "chunk_size": cs, "fragments": [f.hex() for f in frs], "impl": oi[:300], "model": om[:300]}
+        flat = lambda o: [x for bt in o[3:].split("|") for x in bt.split(",") if x not in ("-", "")] if o.startswith("ok ") and o != "ok -" else []
+        if not om.startswith("ok") or not ow.startswith("ok"):
+            raise RuntimeError("splitter model failure: %s / %s" % (om[:80], ow[:80]))
+        if flat(om) != flat(ow):
+            res.violation("model: piped split differs from the whole split (chunk size %d) - the theorem's statement fails on this input" % cs, rp)
+            continue
+        if "." in flat(ow) and not oi.startswith("ok"):
+            sp_stats["empty_nal"] += 1
+            continue
+        if oi != om:
+            res.violation("bytes -> NAL batches on piped stdin: hevc_parser with chunk size %d and the model disagree: impl %s model %s" % (cs, oi[:120], om[:120]), rp)
+            continue
+        sp_stats["stdin_agree"] += 1
     res.coverage.update({
         "splitter_correspondence": sp_stats,
         "evaluations": nrun + len(lines),
         "distinct_nontrivial": len(cases),
-        "rule": "streams from access-unit templates ([AUD] [VPS SPS PPS] [prefix SEI]* slice+ [EL NALs]* [suffix SEI] RPU [EOS/EOB]; 1..14 frames; NAL sizes 3 B..4 kB; mixed 3/4-byte start codes; trailing zeros) x {convert, demux, demux --el-only, remove} x {-m 0..5, --crop, --discard, --start-code annex-b} x hook chunk sizes (divisors of 100000) x {file, piped stdin with random write fragmentation}; a sweep placing a start code at every offset -4..+4 around a chunk-size multiple; outputs re-split by an independent Annex-B splitter and compared as (type, payload) sequences with the Coq routing model (RPU payloads under -m through the model's conversion); distinct (stream, command, options) cases counted; bytes -> NAL batches: hevc_parser's reader (parse_nals off) against the extracted Splitter.v on random byte strings over {00,01,02,03,..} with planted start codes and chunk sizes 1..1000, on the run's streams, and on streams above 100 kB through process_file at the real chunk size, batch by batch",
+        "rule": "streams from access-unit templates ([AUD] [VPS SPS PPS] [prefix SEI]* slice+ [EL NALs]* [suffix SEI] RPU [EOS/EOB]; 1..14 frames; NAL sizes 3 B..4 kB; mixed 3/4-byte start codes; trailing zeros) x {convert, demux, demux --el-only, remove} x {-m 0..5, --crop, --discard, --start-code annex-b} x hook chunk sizes (divisors of 100000) x {file, piped stdin with random write fragmentation}; a sweep placing a start code at every offset -4..+4 around a chunk-size multiple; outputs re-split by an independent Annex-B splitter and compared as (type, payload) sequences with the Coq routing model (RPU payloads under -m through the model's conversion); distinct (stream, command, options) cases counted; bytes -> NAL batches: hevc_parser's reader (parse_nals off) against the extracted Splitter.v on random byte strings over {00,01,02,03,..} with planted start codes and chunk sizes 1..1000, on the run's streams, and on streams above 100 kB through process_file at the real chunk size, batch by batch; the piped-stdin mode with a reader returning arbitrary fragments against read_stdin",
         "cli_runs": nrun, "exit_codes": dict(OUTCOMES),
         "samples": [{"cmd": c[1], "opts": c[2], "nals": len(c[3]), "bytes": len(c[4]), "chunk": c[5]} for c in cases[:4]],
     })
